@@ -46,7 +46,7 @@ WIDE = {
     "C14": SIGNED + UNSIGNED + WORDS,
 }
 # operand pairs per wide type (quick, thorough); measured: ~1.5-4 ms of TLC time per judged event
-PAIRS = {"C11": (550, 12000), "C12": (1200, 20000), "C13": (450, 9000), "C14": (320, 7000)}
+PAIRS = {"C11": (550, 6000), "C12": (1200, 10000), "C13": (450, 5000), "C14": (320, 4000)}
 
 
 def _env():
@@ -208,7 +208,8 @@ def judge_chunks(ctx, events, module_files, module, cfgname, tagp, controls):
     evs = list(events)
     rnd.shuffle(evs)               # spread the expensive types evenly
     evs = controls + evs           # negative controls (k <= 0): TLC must reject every one of them
-    n = max(1, min(ctx.cores, (len(evs) + 399) // 400))
+    # one TLC per core, but at most ~40 000 events per TLC (the parsed trace lives in the JVM heap)
+    n = max(1, min(ctx.cores, (len(evs) + 399) // 400), (len(evs) + 39999) // 40000)
     jobs = []
     for c in range(n):
         part = evs[c::n]
@@ -232,6 +233,13 @@ def judge_chunks(ctx, events, module_files, module, cfgname, tagp, controls):
             raise Infra("negative control: TLC accepted a corrupted event: %s" % json.dumps(c)[:500])
     verdicts = [v for v in verdicts if v["k"] > 0]
     return verdicts, judged - len(controls), n
+
+
+def expected(v):
+    x = v.get("exp") or {}
+    if x.get("out") == "ok":
+        return "ok %d" % zval(x["r"])
+    return x.get("out", "?")
 
 
 def trace_controls(events):
@@ -292,7 +300,7 @@ def run_trace(ctx, binary, prop, ops_res):
         if v["v"] in ("malformed", "unjudgeable"):
             raise Infra("event %s by the specification: %s" % (v["v"], json.dumps(ev)[:600]))
         sig = {"kind": "trace", "type": ev["t"], "op": ev["op"], "dev": v["dev"], "class": v["cls"], "out": ev["out"].split(" ")[0]}
-        ctx.report(sig, "rejected by NumJudge (%s, deviation %s): %s" % (v["cls"], v["dev"], describe(ev)), ev)
+        ctx.report(sig, "rejected by NumJudge (%s, deviation %s): %s   SPEC EXPECTS %s" % (v["cls"], v["dev"], describe(ev), expected(v)), ev)
     distinct = set()
     errs = 0
     for e in events:
@@ -423,7 +431,7 @@ def check_C32(ctx):
         "tlc_judge_chunks": nchunks, "events_per_type_op": per,
     }, assumptions=[
         "metered = sum of MemoryKindBigInt usages reported to the gauge during the value method call; size of the result = len(big.Int.Bits()) * 8",
-        "operand sizes are bounded (quick: 0..8 words; thorough: 0..24 and around the 40- and 100-word thresholds of the estimates), "
+        "operand sizes are bounded (quick: 0..8 words; thorough: 0..16 and around the 40- and 100-word thresholds of the estimates), "
         "shift amounts 0..4096 bits (quick: thinned)",
         "random operands are seeded by VERIF_SEED; the size classes and boundary values are exhaustive within the bound",
     ])
@@ -460,7 +468,8 @@ def _replay(ctx, obj):
     rc = 0
     for e in events:
         v = bad.get(e["k"])
-        print("REPLAY %s: %s" % ("REJECTED by the specification (%s, deviation %s)" % (v["cls"], v["dev"]) if v else "accepted", show(e)))
+        print("REPLAY %s: %s" % ("REJECTED by the specification (%s, deviation %s%s)" % (
+            v["cls"], v["dev"], ", spec expects " + expected(v) if "exp" in v else "") if v else "accepted", show(e)))
         rc = rc or (1 if v else 0)
     return rc
 
